@@ -443,7 +443,13 @@ def a_r1_getattr(schema: Schema, rep: Report):
             rep.check("A-R1", "__getattr__:found-value-is-returned", lost is None, f"a path reads the attribute from a sub-aggregate successfully and still ends without returning it (taken when {lost}): a declared attribute whose value is None is reported as missing (AttributeError / hasattr False) when read through an ancestor" if lost is not None else "", f"{rel}:{fn.lineno}")
     # iteration domain: non-repeated sub-aggregates of the instance
     loops = [s for s in own_statements(fn) if isinstance(s, ast.For)]
-    ok = bool(loops) and text(loops[0].iter) in ("self.subaggregates", "self.__class__.subaggregates", "type(self).subaggregates")
+    import re as _re_a1
+
+    # the mapping itself, its keys, or a list / tuple / sorted copy of them: the same names in the same order
+    it_ = text(loops[0].iter) if loops else ""
+    it_ = _re_a1.sub(r"^(list|tuple|iter)\((.*)\)$", r"\2", it_)
+    it_ = _re_a1.sub(r"\.keys\(\)$", "", it_)
+    ok = bool(loops) and it_ in ("self.subaggregates", "self.__class__.subaggregates", "type(self).subaggregates")
     rep.check("A-R1", "__getattr__:walks-subaggregates", ok, f"proxy walks {text(loops[0].iter) if loops else None}, expected self.subaggregates" if not ok else "", f"{rel}:{fn.lineno}")
     for ci in schema.all_aggregate_classes():
         if ci is schema.aggregate:
